@@ -51,8 +51,10 @@ void iwrb_put(IWRB *rb, const void *buf) {
 }
 
 void iwrb_back(IWRB *rb) {
-  if (rb->pos > 0) {
+  if (rb->pos > 1) {
     --rb->pos;
+  } else if (rb->pos == 1) {
+    rb->pos = rb->len;
   } else if (rb->pos < 0) {
     ++rb->pos;
   }
